@@ -414,7 +414,8 @@ func init() {
 				g.Static = append(g.Static, frame.ErrorsPropagated(env.Prog, fn, ").resolveValues"))
 			}
 			g.Unverified = []string{
-				"that substitution yields all combinations of the referenced values and agrees with apparmor_parser (string rewriting through regexp and strings.ReplaceAll)",
+				"which strings substitution yields (all combinations, // collapsing): only a bounded stand-in, labelled bounded; agreement with apparmor_parser beyond that reference expansion is not covered",
+				"the values of variables after Resolve (only the attachments are related to resolveValues; variables are rewritten in place while they are read)",
 				"that the values appended with += end up, in order, in the definition (only that the += rule is the one removed is covered through the conservation obligations)",
 			}
 			return g
